@@ -196,6 +196,15 @@ def cases(tier, rng):
                     yield {"op": "from_intervals_arr", "recs": recs, "size": size, "kind": kind}
             if all(iv[i][1] < iv[i + 1][0] for i in range(len(iv) - 1)):
                 yield {"op": "from_intervals_arr", "recs": [[a, b, 1] for a, b in iv], "size": size, "kind": "bool"}
+                # integer values with a non-integer default: the result type is float64 (values/default sent as its bits)
+                iv_ = [rng.choice([2, 3, -1, 0]) for _ in iv]
+                for dv in (0.5, -1.25):
+                    yield {"op": "from_intervals_arr", "recs": [[a, b, _f2b(float(v))] for (a, b), v in zip(iv, iv_)],
+                           "size": size, "kind": "float", "ivals": iv_, "dflt": _f2b(dv)}
+                # float values with an integer default other than 0
+                fv = _values(rng, "float", len(iv))
+                yield {"op": "from_intervals_arr", "recs": [[a, b, v] for (a, b), v in zip(iv, fv)], "size": size,
+                       "kind": "float", "dflt": _f2b(3.0), "idflt": 3}
     # 2. genomes of 1..4 chromosomes: every distribution of <= 3 records
     for nch in (1, 2, 3, 4):
         for sizes in itertools.product((1, 2, 4) if big else (1, 3), repeat=nch):
@@ -253,6 +262,8 @@ def _ftree(rng, depth):
 
 def nontrivial(c):
     op = c["op"]
+    if op == "from_intervals_arr" and "dflt" in c:
+        return True
     if op in ("rle_bedgraph", "from_intervals_arr"):
         r = c["recs"]
         return bool(r) and (r[0][0] > 0 or (c["size"] is not None and r[-1][1] < c["size"])
@@ -334,9 +345,10 @@ def impl(c):
             return _rle_obs(r, c["kind"])
         if op == "from_intervals_arr":
             recs, kind = c["recs"], c["kind"]
-            v = _vals(kind, [x[2] for x in recs])
+            v = np.array(c["ivals"], dtype=np.int64) if "ivals" in c else _vals(kind, [x[2] for x in recs])
+            dv = c["idflt"] if "idflt" in c else (_b2f(c["dflt"]) if "dflt" in c else (False if kind == "bool" else 0))
             r = m["G"].from_intervals(np.array([x[0] for x in recs], dtype=int), np.array([x[1] for x in recs], dtype=int),
-                                      c["size"], values=v, default_value=(False if kind == "bool" else 0))
+                                      c["size"], values=v, default_value=dv)
             return _rle_obs(r, kind)
         if op in ("track", "geo_track"):
             sd = _sizes_dict(c["sizes"])
@@ -374,8 +386,8 @@ def impl(c):
 
 # ------------------------------------------------------------------ oracle: dense NumPy
 
-def _dense(recs, kind, size):
-    a = np.zeros(size, dtype={"float": np.float64, "bool": bool}.get(kind, np.int64))
+def _dense(recs, kind, size, dflt=0):
+    a = np.full(size, dflt, dtype={"float": np.float64, "bool": bool}.get(kind, np.int64))
     v = _vals(kind, [r[-1] for r in recs])
     for r, x in zip(recs, v):
         a[r[-3]:r[-2]] = x
@@ -418,7 +430,7 @@ def oracle(c):
     if op == "from_intervals_arr":
         if not _ok_bedgraph(c["recs"], c["size"], strict=True):
             return SKIP
-        return {"dense": _out(c["kind"], _dense(c["recs"], c["kind"], c["size"]))}
+        return {"dense": _out(c["kind"], _dense(c["recs"], c["kind"], c["size"], _b2f(c["dflt"]) if "dflt" in c else 0))}
     if op in ("track", "geo_track"):
         sizes = c["sizes"]
         per = _split(sizes, c["recs"])
